@@ -398,13 +398,17 @@ func c33GenStream(r *vhRng) string {
 
 var c33Kinds = []*c33Kind{
 	{name: "ba",
-		decode: func(in []byte) (string, func() ([]byte, error), error) {
+		recv: func() *c33Recv {
+			m := &BlockAnnounceMessage{Digest: types.NewDigest()}
+			return &c33Recv{decode: m.Decode, live: &c33Live{view: func() string { return c33Dump(reflect.ValueOf(*m)) }, reenc: m.Encode}}
+		},
+		decode: func(in []byte) (*c33Live, error) {
 			m, err := decodeBlockAnnounceMessage(in)
 			if err != nil {
-				return "", nil, err
+				return nil, err
 			}
 			bm := m.(*BlockAnnounceMessage)
-			return c33Dump(reflect.ValueOf(*bm)), bm.Encode, nil
+			return &c33Live{view: func() string { return c33Dump(reflect.ValueOf(*bm)) }, reenc: bm.Encode}, nil
 		},
 		valid: func(r *vhRng) []byte {
 			h := c33Header(r)
@@ -414,13 +418,17 @@ var c33Kinds = []*c33Kind{
 		},
 		scan: c33ScanType(reflect.TypeOf(BlockAnnounceMessage{})), typ: reflect.TypeOf(BlockAnnounceMessage{})},
 	{name: "bah",
-		decode: func(in []byte) (string, func() ([]byte, error), error) {
+		recv: func() *c33Recv {
+			m := &BlockAnnounceHandshake{}
+			return &c33Recv{decode: m.Decode, live: &c33Live{view: func() string { return c33Dump(reflect.ValueOf(*m)) }, reenc: m.Encode}}
+		},
+		decode: func(in []byte) (*c33Live, error) {
 			m, err := decodeBlockAnnounceHandshake(in)
 			if err != nil {
-				return "", nil, err
+				return nil, err
 			}
 			hs := m.(*BlockAnnounceHandshake)
-			return c33Dump(reflect.ValueOf(*hs)), hs.Encode, nil
+			return &c33Live{view: func() string { return c33Dump(reflect.ValueOf(*hs)) }, reenc: hs.Encode}, nil
 		},
 		valid: func(r *vhRng) []byte {
 			m := &BlockAnnounceHandshake{Roles: common.NetworkRole(r.Pick(0, 1, 2, 4, 255)),
@@ -429,13 +437,17 @@ var c33Kinds = []*c33Kind{
 		},
 		scan: c33NoScan},
 	{name: "tx",
-		decode: func(in []byte) (string, func() ([]byte, error), error) {
+		recv: func() *c33Recv {
+			m := &TransactionMessage{}
+			return &c33Recv{decode: m.Decode, live: &c33Live{view: func() string { return c33Dump(reflect.ValueOf(m.Extrinsics)) }, reenc: m.Encode}}
+		},
+		decode: func(in []byte) (*c33Live, error) {
 			m, err := decodeTransactionMessage(in)
 			if err != nil {
-				return "", nil, err
+				return nil, err
 			}
 			tm := m.(*TransactionMessage)
-			return c33Dump(reflect.ValueOf(tm.Extrinsics)), tm.Encode, nil
+			return &c33Live{view: func() string { return c33Dump(reflect.ValueOf(tm.Extrinsics)) }, reenc: tm.Encode}, nil
 		},
 		valid: func(r *vhRng) []byte {
 			m := &TransactionMessage{Extrinsics: types.BytesArrayToExtrinsics(c33ByteStrings(r))}
@@ -443,34 +455,50 @@ var c33Kinds = []*c33Kind{
 		},
 		scan: c33NoScan, typ: reflect.TypeOf([]types.Extrinsic(nil))},
 	{name: "txh",
-		decode: func(in []byte) (string, func() ([]byte, error), error) {
+		recv: func() *c33Recv {
+			m := &transactionHandshake{}
+			return &c33Recv{decode: m.Decode, live: &c33Live{view: func() string { return "()" }, reenc: m.Encode}}
+		},
+		decode: func(in []byte) (*c33Live, error) {
 			m, err := decodeTransactionHandshake(in)
 			if err != nil {
-				return "", nil, err
+				return nil, err
 			}
-			return "()", m.Encode, nil
+			return &c33Live{view: func() string { return "()" }, reenc: m.Encode}, nil
 		},
 		valid: func(r *vhRng) []byte { return r.Bytes(r.Intn(4)) },
 		scan:  c33NoScan},
 	{name: "cons",
-		decode: func(in []byte) (string, func() ([]byte, error), error) {
+		recv: func() *c33Recv {
+			m := &ConsensusMessage{}
+			return &c33Recv{decode: m.Decode, live: &c33Live{view: func() string { return c33Dump(reflect.ValueOf(m.Data)) }, reenc: m.Encode}}
+		},
+		decode: func(in []byte) (*c33Live, error) {
 			m := new(ConsensusMessage)
 			if err := m.Decode(in); err != nil {
-				return "", nil, err
+				return nil, err
 			}
-			return c33Dump(reflect.ValueOf(m.Data)), m.Encode, nil
+			return &c33Live{view: func() string { return c33Dump(reflect.ValueOf(m.Data)) }, reenc: m.Encode}, nil
 		},
 		valid: func(r *vhRng) []byte { return r.Bytes(r.Intn(12)) },
 		scan:  c33NoScan},
 	{name: "lreq",
-		decode: func(in []byte) (string, func() ([]byte, error), error) {
+		recv: func() *c33Recv {
+			m := NewLightRequest()
+			view := func() string {
+				return c33Dump(reflect.ValueOf(c33LightReqDump{*m.RemoteCallRequest, *m.RemoteReadRequest, *m.RemoteHeaderRequest,
+					*m.RemoteReadChildRequest, *m.RemoteChangesRequest}))
+			}
+			return &c33Recv{decode: m.Decode, live: &c33Live{view: view, reenc: m.Encode}}
+		},
+		decode: func(in []byte) (*c33Live, error) {
 			m, err := newLightRequestFromBytes(in)
 			if err != nil {
-				return "", nil, err
+				return nil, err
 			}
 			d := c33LightReqDump{*m.RemoteCallRequest, *m.RemoteReadRequest, *m.RemoteHeaderRequest,
 				*m.RemoteReadChildRequest, *m.RemoteChangesRequest}
-			return c33Dump(reflect.ValueOf(d)), m.Encode, nil
+			return &c33Live{view: func() string { return c33Dump(reflect.ValueOf(d)) }, reenc: m.Encode}, nil
 		},
 		valid: func(r *vhRng) []byte {
 			m := NewLightRequest()
@@ -484,14 +512,22 @@ var c33Kinds = []*c33Kind{
 		},
 		scan: c33ScanType(reflect.TypeOf(request{})), typ: reflect.TypeOf(request{})},
 	{name: "lresp",
-		decode: func(in []byte) (string, func() ([]byte, error), error) {
+		recv: func() *c33Recv {
+			m := NewLightResponse()
+			view := func() string {
+				return c33Dump(reflect.ValueOf(c33LightRespDump{*m.RemoteCallResponse, *m.RemoteReadResponse, *m.RemoteHeaderResponse,
+					*m.RemoteChangesResponse}))
+			}
+			return &c33Recv{decode: m.Decode, live: &c33Live{view: view, reenc: m.Encode}}
+		},
+		decode: func(in []byte) (*c33Live, error) {
 			m, err := newLightResponseFromBytes(in)
 			if err != nil {
-				return "", nil, err
+				return nil, err
 			}
 			d := c33LightRespDump{*m.RemoteCallResponse, *m.RemoteReadResponse, *m.RemoteHeaderResponse,
 				*m.RemoteChangesResponse}
-			return c33Dump(reflect.ValueOf(d)), m.Encode, nil
+			return &c33Live{view: func() string { return c33Dump(reflect.ValueOf(d)) }, reenc: m.Encode}, nil
 		},
 		valid: func(r *vhRng) []byte {
 			m := NewLightResponse()
@@ -517,26 +553,34 @@ var c33Kinds = []*c33Kind{
 		},
 		scan: c33ScanType(reflect.TypeOf(response{})), typ: reflect.TypeOf(response{})},
 	{name: "warp",
-		decode: func(in []byte) (string, func() ([]byte, error), error) {
+		recv: func() *c33Recv {
+			m := &messages.WarpProofRequest{}
+			return &c33Recv{decode: m.Decode, live: &c33Live{view: func() string { return c33Dump(reflect.ValueOf(*m)) }, reenc: m.Encode}}
+		},
+		decode: func(in []byte) (*c33Live, error) {
 			m, err := decodeWarpSyncMessage(in, "", false)
 			if err != nil {
-				return "", nil, err
+				return nil, err
 			}
 			w := m.(*messages.WarpProofRequest)
-			return c33Dump(reflect.ValueOf(*w)), w.Encode, nil
+			return &c33Live{view: func() string { return c33Dump(reflect.ValueOf(*w)) }, reenc: w.Encode}, nil
 		},
 		valid: func(r *vhRng) []byte {
 			return c33Must((&messages.WarpProofRequest{Begin: c33Hash(r)}).Encode())
 		},
 		scan: c33NoScan},
 	{name: "breq",
-		decode: func(in []byte) (string, func() ([]byte, error), error) {
+		recv: func() *c33Recv {
+			m := &messages.BlockRequestMessage{}
+			return &c33Recv{decode: m.Decode, live: &c33Live{view: func() string { return c33BlockRequestDump(m) }, reenc: m.Encode}}
+		},
+		decode: func(in []byte) (*c33Live, error) {
 			m, err := decodeSyncMessage(in, "", false)
 			if err != nil {
-				return "", nil, err
+				return nil, err
 			}
 			bm := m.(*messages.BlockRequestMessage)
-			return c33BlockRequestDump(bm), bm.Encode, nil
+			return &c33Live{view: func() string { return c33BlockRequestDump(bm) }, reenc: bm.Encode}, nil
 		},
 		valid: func(r *vhRng) []byte {
 			if r.Bool() {
@@ -558,12 +602,16 @@ var c33Kinds = []*c33Kind{
 		scan:  c33NoScan,
 		craft: func(r *vhRng) []byte { return c33CraftWire(r, c33RawBlockRequest(r)) }},
 	{name: "bresp",
-		decode: func(in []byte) (string, func() ([]byte, error), error) {
+		recv: func() *c33Recv {
+			m := &messages.BlockResponseMessage{}
+			return &c33Recv{decode: m.Decode, live: &c33Live{view: func() string { return c33Dump(reflect.ValueOf(m.BlockData)) }, reenc: m.Encode}}
+		},
+		decode: func(in []byte) (*c33Live, error) {
 			m := new(messages.BlockResponseMessage)
 			if err := m.Decode(in); err != nil {
-				return "", nil, err
+				return nil, err
 			}
-			return c33Dump(reflect.ValueOf(m.BlockData)), m.Encode, nil
+			return &c33Live{view: func() string { return c33Dump(reflect.ValueOf(m.BlockData)) }, reenc: m.Encode}, nil
 		},
 		valid: func(r *vhRng) []byte {
 			if r.Bool() {
@@ -591,15 +639,15 @@ var c33Kinds = []*c33Kind{
 		},
 		scan: c33ScanBlockResponse, craft: c33CraftBlockResponse},
 	{name: "body",
-		decode: func(in []byte) (string, func() ([]byte, error), error) {
+		decode: func(in []byte) (*c33Live, error) {
 			b, err := types.NewBodyFromBytes(in)
 			if err != nil {
-				return "", nil, err
+				return nil, err
 			}
 			if b == nil {
-				return "", nil, errors.New("nil body")
+				return nil, errors.New("nil body")
 			}
-			return c33Dump(reflect.ValueOf(*b)), func() ([]byte, error) { return scale.Marshal(*b) }, nil
+			return &c33Live{view: func() string { return c33Dump(reflect.ValueOf(*b)) }, reenc: func() ([]byte, error) { return scale.Marshal(*b) }}, nil
 		},
 		valid: func(r *vhRng) []byte {
 			if r.Chance(1, 8) {
@@ -609,23 +657,32 @@ var c33Kinds = []*c33Kind{
 		},
 		scan: c33ScanType(reflect.TypeOf([][]byte(nil))), typ: reflect.TypeOf([][]byte(nil))},
 	{name: "sreq",
-		decode: func(in []byte) (string, func() ([]byte, error), error) {
+		recv: func() *c33Recv {
+			m := &messages.StateRequest{}
+			return &c33Recv{decode: m.Decode, live: &c33Live{view: func() string { return c33Dump(reflect.ValueOf(*m)) }, reenc: m.Encode}}
+		},
+		decode: func(in []byte) (*c33Live, error) {
 			m := new(messages.StateRequest)
 			if err := m.Decode(in); err != nil {
-				return "", nil, err
+				return nil, err
 			}
-			return c33Dump(reflect.ValueOf(*m)), m.Encode, nil
+			return &c33Live{view: func() string { return c33Dump(reflect.ValueOf(*m)) }, reenc: m.Encode}, nil
 		},
 		valid: c33RawStateRequest,
 		scan:  c33NoScan,
 		craft: func(r *vhRng) []byte { return c33CraftWire(r, c33RawStateRequest(r)) }},
 	{name: "sresp", // StateResponse has no Encode: re=err
-		decode: func(in []byte) (string, func() ([]byte, error), error) {
+		recv: func() *c33Recv {
+			m := &messages.StateResponse{}
+			return &c33Recv{decode: m.Decode, live: &c33Live{view: func() string { return c33Dump(reflect.ValueOf(*m)) },
+				reenc: func() ([]byte, error) { return nil, errors.New("no encoder") }}}
+		},
+		decode: func(in []byte) (*c33Live, error) {
 			m := new(messages.StateResponse)
 			if err := m.Decode(in); err != nil {
-				return "", nil, err
+				return nil, err
 			}
-			return c33Dump(reflect.ValueOf(*m)), func() ([]byte, error) { return nil, errors.New("no encoder") }, nil
+			return &c33Live{view: func() string { return c33Dump(reflect.ValueOf(*m)) }, reenc: func() ([]byte, error) { return nil, errors.New("no encoder") }}, nil
 		},
 		valid: c33RawStateResponse,
 		scan:  c33NoScan,
